@@ -4,7 +4,7 @@ import itertools
 import readerlib as rl
 import readerprops as rp
 
-PROPFILES = ["props/C06.v"]
+PROPFILES = ["props/C06.v", "props/C06_src.v"]
 ASSUMPTIONS = rp.ASSUMPTIONS
 TRUSTED = rp.TRUSTED
 RULE = ("clean streams = sequences of frames from a pool of 19 (valid / bad-checksum / zero-length / unknown UBX, "
